@@ -397,7 +397,7 @@ struct InflateSession {
                         rr.fail("C06.accounting", "isal_inflate_stateless: next_out/avail_out inconsistent");
                         return false;
                 }
-                os1.ran = true;
+                os1.ran = osz == 0; // with a deliberately small sink only the safety clauses are judged (guard page, documented status)
                 os1.ret = ret;
                 os1.block_state = s->block_state;
                 os1.total_out = s->total_out;
